@@ -201,9 +201,9 @@ class Gen(object):
         m = self.modelled
         dirs = []
         newvars = []
-        kinds = ['if', 'for', 'with', 'choose', 'strip', 'content', 'replace', 'def']
+        kinds = ['if', 'for', 'with', 'choose', 'strip', 'content', 'replace', 'def', 'match']
         if not m:
-            kinds += ['attrs', 'match']
+            kinds += ['attrs']
         k = rng.choice([1, 1, 1, 2, 2, 3])
         for name in rng.sample(kinds, min(k, len(kinds))):
             if name == 'if':
@@ -239,7 +239,8 @@ class Gen(object):
                 if arg:
                     newvars.append('p')
             elif name == 'match':
-                dirs.append(('match', rng.choice(['em', 'span', 'li', 'b/i', '*[@class]', 'p'])))
+                dirs.append(('match', rng.choice(['em', 'span', 'li', 'b/i', '*[@class]', 'p'] if not m else
+                                                 ['em', 'span', 'li', 'p', 'b'])))
         if any(d[0] == 'replace' for d in dirs):
             dirs = [d for d in dirs if d[0] not in ('attrs', 'strip', 'content')]
         if in_choose and rng.random() < 0.8:
@@ -320,6 +321,9 @@ class Gen(object):
                        'match': 'path', 'when': 'test', 'otherwise': None}[k]
             if argname is None:
                 s = '<py:%s>%s</py:%s>' % (k, s, k)
+            elif k == 'match' and rng.random() < 0.5:
+                self.features.add('match-once')
+                s = '<py:match path="%s" once="true">%s</py:match>' % (esc_attr(v), s)
             else:
                 s = '<py:%s %s="%s">%s</py:%s>' % (k, argname, esc_attr(v), s, k)
         return s
